@@ -405,6 +405,10 @@ def named_table():
     class K:
         pass
     K_other = type('K', (), {})
+
+    class RaisingRepr:
+        def __repr__(self):
+            raise RuntimeError('repr boom')
     t = [('NT vs own class', nt, NT, True), ('untyped namedtuple vs own class', ut, UT, True), ('NT vs object', nt, object, True),
          ('NT vs Tuple[int, str]', nt, Tuple[int, str], True), ('NT vs tuple[int, str]', nt, tuple[int, str], True),
          ('NT vs unrelated NamedTuple with equal fields', nt, NT2, False), ('NT vs dataclass with equal fields', nt, D, False),
@@ -419,6 +423,8 @@ def named_table():
          ('object with __eq__ -> True vs None', EqAll(), None, False), ('unittest.mock.ANY vs None', __import__('unittest.mock').mock.ANY, None, False),
          ('object with __eq__ -> True vs Optional[int]', EqAll(), Optional[int], False),
          ('[object with __eq__ -> True] vs List[None]', [EqAll()], List[None], False),
+         ('object whose __repr__ raises vs int', RaisingRepr(), int, False),
+         ('object whose __repr__ raises vs object', RaisingRepr(), object, True),
          ("instance of K vs 'K'", K(), 'K', True),
          ("instance of an unrelated class that is also called K vs 'K'", K_other(), 'K', False)]
     _named['t'] = t
